@@ -1,6 +1,6 @@
 """property id -> units and reporting metadata (single source for MANIFEST.json)"""
 from units import (specificity, best, fragments, static_list, hashing, vptrs, resolve, generator, handlers,
-                   virtual_ptr, deferred, slots, install, best_proof)
+                   virtual_ptr, deferred, slots, install, best_proof, codec)
 
 A_TABLES = ('compiler::build_dispatch_tables (grouping of classes by applicability mask, stride products, recursion order, '
             'v-table entry filling) is NOT under contract (std::map<dynamic_bitset,...>, recursion over containers): '
@@ -16,8 +16,6 @@ NOT_APPLICABLE = {
            'no function within CBMC\'s C subset carries the property, a rule-based C translation would be a hand model (DESIGN.md section 7)',
     'C11': 'argument adjustment is static_cast / dynamic_cast / std::forward / shared_ptr ownership in thunk templates: '
            'C++ language semantics with no body in the verifier\'s language (DESIGN.md section 7)',
-    'C13': 'the encoder is a sequence of ostream insertions producing C++ source text and the decoder works in place on that text\'s arrays '
-           'with alloca and lambdas; a bounded C extraction was planned (DESIGN.md section 6 C13) and not built in this round: not claimed',
     'C14': 'policy isolation is the identity of template static data members and mp11 rebind/replace/remove; in the C extraction '
            'a policy\'s statics are one set of globals by construction, so no contract can confirm or refute sharing (DESIGN.md section 7)',
     'C19': 'name extraction is std::regex and std::string / std::set iterator code writing to an ostream; outside the C subset '
@@ -224,5 +222,18 @@ PROPS = {
         'design_ref': 'DESIGN.md section 6 C18, 2.7',
         'unverified': ['class_declaration_aux / method / definition_info constructors and destructors calling push_back / remove (templates)', 'real dlclose timing'],
         'assumptions': [],
+    },
+    'C13': {
+        'units': [codec.jobs, install.jobs],
+        'level': 'other',
+        'technique': 'bounded CBMC round trip of the extracted encoder (ostream insertions logged) and the extracted in-place decoder on concrete registry shapes, against install_gv\'s postcondition',
+        'level_text': 'For each of a set of concrete registry shapes (uni- and multi-methods with error cells, a class whose v-table does not start at slot 0, classes with no v-table '
+                      'entries, many classes with few methods) and arbitrary contents, the real encoder is run with its output logged, the logged numbers are laid out as the declared '
+                      'structure, the real decoder is run on it, and the result is compared with what install_gv installs; every decoder access is bounds-checked against the declared structure.',
+        'level_note': 'bounded stand-in only (no obligation is discharged for all registries); compilability of the emitted text is reduced to "declared sizes match what is emitted and do not wrap"',
+        'design_ref': 'DESIGN.md section 6 C13',
+        'unverified': ['formatting of the emitted text (hex, commas, comments), boost::core::demangle', A_TABLES],
+        'assumptions': [],
+        'explanation': 'bounded round trip of the real encoder and decoder on concrete registry shapes; not a proof',
     },
 }
